@@ -5,8 +5,8 @@ package triple
 // Contracts for the gowp verifier (/verif). Comment-only file.
 
 // An object boxes exactly one of node, predicate, literal.
-//@ spec macro wfObj(o *Object) Bool = o != nil && (o.n != nil || o.p != nil || o.l != nil)
-//@ spec macro wfTriple(t *Triple) Bool = t != nil && t.s != nil && t.p != nil && wfObj(t.o)
+//@ spec macro wfObj(o *Object) Bool = o != nil && (o.n != nil || o.p != nil || o.l != nil) && (o.n != nil ==> wfNode(o.n)) && (o.l != nil ==> wfLit(o.l))
+//@ spec macro wfTriple(t *Triple) Bool = t != nil && wfNode(t.s) && t.p != nil && wfObj(t.o)
 
 //@ props C15 C08
 //@ func ParseObject
@@ -38,3 +38,16 @@ package triple
 
 //@ func NewLiteralObject
 //@   ensures[value] result != nil && fresh(result) && result.l == l && result.n == nil && result.p == nil
+
+//@ props C06
+//@ func (o *Object) UUID
+//@   pure
+//@   requires wfObj(o)
+//@   ensures result == ou(o) && len(result) == 16
+//@   trusted dispatches to the boxed value's UUID; subject of C06
+
+//@ func (t *Triple) UUID
+//@   trusted SHA-1 of the three component UUIDs; subject of C06
+//@   pure
+//@   requires wfTriple(t)
+//@   ensures result == tu(t) && len(result) == 16
